@@ -41,7 +41,7 @@ func main() {
 		}
 	}()
 	var opts []loader.Option
-	if len(os.Args) > 4 && os.Args[4] == "loadtest" && os.Args[1] != "multi" {
+	if len(os.Args) > 4 && os.Args[4] == "loadtest" && os.Args[1] != "multi" && os.Args[1] != "twice" {
 		opts = append(opts, loader.WithLoadTest())
 	}
 	switch os.Args[1] {
@@ -51,6 +51,11 @@ func main() {
 		rewriter.CompileStages(os.Args[2], os.Args[3], opts...)
 	case "gogen":
 		rewriter.GoGen(os.Args[2])
+	case "twice":
+		// codrv twice <other> <otherDst> <src> <dst>: two compilations in ONE process (a build
+		// driver for several trees); the second must not depend on the first having happened
+		rewriter.Compile(os.Args[2], os.Args[3])
+		rewriter.Compile(os.Args[4], os.Args[5])
 	case "multi":
 		// codrv multi <srcRoot> <dstRoot> pkg...: one Compile per package directory, each
 		// with its own verdict line (used where most programs are expected to be rejected)
